@@ -4,6 +4,7 @@ package main
 
 import (
 	"fmt"
+	"go/token"
 	"strings"
 
 	"golang.org/x/tools/go/callgraph"
@@ -24,6 +25,9 @@ func init() {
 	add("C12", ruleNoStaleRegistryArray)
 	add("C10", ruleNoStaleRegistryArray)
 	add("C11", ruleContextAttachedByTheHostOnly)
+	add("C14", ruleBacktrackingUnconditional)
+	add("C19", ruleDescriptorMovedOnlyBySeek)
+	add("C05", rulePCallDeliversEveryErrorObject)
 	add("C02", rulePCallHandsItsArgumentsOn)
 	// a prototype is shared by every closure made from it: a run-time write into it (a cached closure) is what
 	// makes two evaluations of one function expression the same object — C03 "fresh closure, creator's environment"
@@ -376,4 +380,139 @@ func ruleCurrentThreadRestoredOnRaise(c *Ctx) {
 	}
 	c.Sites += stores
 	c.check(stores >= 4, R, "CurrentThread:restore-survives-a-raise", "-", fmt.Sprintf("%d stores of G.CurrentThread examined, no save/restore pair around a raising call outside a deferred function", stores), "stores of G.CurrentThread not found")
+}
+
+// ruleBacktrackingUnconditional: C14 "patterns match as the 5.1 matcher does": the matcher is a
+// backtracking search whose outcome at (pc, sp) depends on the captures made so far (back-references), so a
+// branch may be skipped only because an earlier branch of the same instruction succeeded. In recursiveVM
+// every recursive call is reached under comparisons only (the dispatch on the opcode, bounds, the recursion
+// cap) or under the failure of an earlier recursive call — never under the answer of some other call or
+// table lookup (a memo of failed states keyed by (pc, sp) prunes states that would succeed with other
+// captures: "^(a-)a-b%1$" on "aaba").
+func ruleBacktrackingUnconditional(c *Ctx) {
+	const R = "R14-progress"
+	p := c.P
+	fn := c.need(R, "pm", "recursiveVM")
+	if fn == nil {
+		return
+	}
+	g := p.G(fn)
+	n := 0
+	var badAt ssa.Instruction
+	what := ""
+	for _, cl := range callsTo(fn, fn) {
+		if cl.Parent() != fn {
+			continue
+		}
+		n++
+		for _, cd := range g.CondsAtInstr(cl) {
+			v := cd.V
+			if u, ok := v.(*ssa.UnOp); ok && u.Op == token.NOT {
+				v = u.X
+			}
+			switch x := v.(type) {
+			case *ssa.BinOp:
+				continue
+			case *ssa.Extract:
+				if tc, ok := x.Tuple.(*ssa.Call); ok && tc.Call.StaticCallee() == fn {
+					continue // the outcome of an earlier branch
+				}
+			case *ssa.Phi:
+				continue // a short-circuit of comparisons
+			}
+			if badAt == nil {
+				badAt, what = cl, fmt.Sprintf("%T %s", cd.V, cd.V.String())
+			}
+		}
+	}
+	c.Sites += n
+	pos := p.pos(fn.Pos())
+	if badAt != nil {
+		pos = p.ipos(badAt)
+	}
+	c.check(n >= 2 && badAt == nil, R, "recursiveVM:branches-taken-under-comparisons-only", pos, fmt.Sprintf("%d recursive calls, each reached under comparisons and earlier branch outcomes only", n),
+		"a branch of the backtracking search in recursiveVM is taken or skipped on the answer of "+what+": the outcome at (pc, sp) depends on the captures made so far (back-references), so pruning by anything but an earlier branch's success loses matches")
+}
+
+// ruleDescriptorMovedOnlyBySeek: C19 "one cursor": the position of the underlying descriptor is changed by
+// reads, writes, file:seek and the reconciliation of the read buffer — nothing else calls (*os.File).Seek
+// (a constructor that seeks an "a+" handle to the end makes the first read answer nil).
+func ruleDescriptorMovedOnlyBySeek(c *Ctx) {
+	const R = "R19-reconcile"
+	p := c.P
+	allowed := map[*ssa.Function]bool{}
+	for _, n := range []string{"fileSeek", "(*lFile).AbandonReadBuffer"} {
+		if f := p.Fn("lua", n); f != nil {
+			allowed[f] = true
+		}
+	}
+	n, who := 0, ""
+	for _, fn := range p.srcFuncs {
+		if fn.Pkg == nil || fn.Pkg.Pkg.Path() != luaPath || fn.Blocks == nil {
+			continue
+		}
+		allInstrs(fn, func(in ssa.Instruction) {
+			cc := callOf(in)
+			if cc == nil || in.Parent() != fn {
+				return
+			}
+			sc := cc.StaticCallee()
+			if sc == nil || sc.Name() != "Seek" || recvNamed(sc) != "File" || sc.Pkg == nil || sc.Pkg.Pkg.Path() != "os" {
+				return
+			}
+			n++
+			root := fn
+			for root.Parent() != nil {
+				root = root.Parent()
+			}
+			if !allowed[root] && !isNewHelper(root) {
+				who = fname(fn)
+			}
+		})
+	}
+	c.Sites += n
+	c.check(n >= 2 && who == "", R, "descriptor-moved-only-by-seek-and-reconciliation", "-", fmt.Sprintf("%d calls of (*os.File).Seek, all in file:seek and the read-buffer reconciliation", n),
+		who+" moves the descriptor with (*os.File).Seek: the handle's cursor changes outside read, write and seek (an \"a+\" handle positioned at the end by its constructor reads nil where the file's first bytes are)")
+}
+
+// rulePCallDeliversEveryErrorObject: C05 "the error value reaches the nearest pcall as that value": pcall and
+// xpcall hand on the Object of whatever *ApiError the protected call returned — they do not look at the
+// error's kind (a Go panic converted by PCall carries its message as Object; falling back to Error() for
+// that kind appends the stack traceback to what the script receives).
+func rulePCallDeliversEveryErrorObject(c *Ctx) {
+	const R = "R05-convert"
+	p := c.P
+	typeF := p.Field("lua", "ApiError", "Type")
+	if typeF == nil {
+		c.und(R, "pcall:error-object-whatever-the-kind", "-", "ApiError.Type not found")
+		return
+	}
+	for _, name := range []string{"basePCall", "baseXPCall"} {
+		fn := c.need(R, "lua", name)
+		if fn == nil {
+			continue
+		}
+		reads := false
+		look := func(f *ssa.Function) {
+			for _, b := range f.Blocks {
+				for _, in := range b.Instrs {
+					if fa, ok := in.(*ssa.FieldAddr); ok && fieldOf(fa) == typeF {
+						reads = true
+					}
+					if fv, ok := in.(*ssa.Field); ok && fieldOfVal(fv) == typeF {
+						reads = true
+					}
+				}
+			}
+		}
+		look(fn)
+		allInstrs(fn, func(in ssa.Instruction) {
+			if sc := staticCallee(in); sc != nil && isNewHelper(sc) {
+				look(sc)
+			}
+		})
+		c.Sites++
+		c.check(!reads, R, name+":error-object-whatever-the-kind", p.pos(fn.Pos()), "the failure arm does not consult ApiError.Type",
+			name+" chooses what to hand the script by the kind of the ApiError: for the kinds it excludes the script receives Error() — the message with position and stack traceback appended — instead of the error value")
+	}
 }
